@@ -12,7 +12,8 @@
 // Mode "race" (built with `go build -race` by tools/c10_run.py): the same pools and calls executed
 // from 2..16 goroutines sharing the operands; every result is compared with the result of a
 // sequential run, the store is re-observed, and the race detector's reports are collected by the
-// caller. Prints FAIL/STATS lines itself.
+// caller; followed by the "cold" variant (cold.go): freshly constructed operands, no sequential
+// observation before the goroutines start. Prints FAIL/STATS lines itself.
 package main
 
 import (
@@ -150,7 +151,7 @@ func main() {
 func raceMode(a lib.Args, only int) {
 	root := lib.NewRng(a.Seed)
 	st := map[string]int{}
-	fails, calls_total := 0, 0
+	fails, calls_total, cold_total, cold_instances := 0, 0, 0, 0
 	var mu sync.Mutex
 	report := func(id int, name, detail string) {
 		mu.Lock()
@@ -209,9 +210,17 @@ func raceMode(a lib.Args, only int) {
 			report(i, "operand_changed_concurrent", fmt.Sprintf("seed=%d case=%d goroutines=%d at end", a.Seed, i, g))
 		}
 		calls_total += len(calls) * g
+		// cold variant: fresh operands on which no method has been called before the goroutines start
+		inst := 2
+		if a.Tier == "thorough" {
+			inst = 4
+		}
+		cold_total += coldPhase(i, a.Seed, r, p, inst, report)
+		cold_instances += inst
 	}
 	hs, _ := json.Marshal(hist)
 	fmt.Printf("STATS\tconcurrent_histories=%d\tconcurrent_fails=%d\tconcurrent_call_instances=%d\n", a.N, fails, calls_total)
-	fmt.Printf("SAMPLE\trace mode: goroutine-count histogram %s\n", hs)
+	fmt.Printf("STATS\tcold_instances=%d\tcold_call_instances=%d\n", cold_instances, cold_total)
+	fmt.Printf("SAMPLE\trace mode: goroutine-count histogram %s; cold part: %d freshly constructed operand sets (WKB decoder / WKT decoder / constructors, BulkLoad, NewSequence, NewEnvelope), no method called before the goroutines start, every goroutine runs the whole read-only call set in its own order\n", hs, cold_instances)
 	_ = os.Stdout.Sync()
 }
